@@ -288,8 +288,16 @@ def engine_plan(binp, job, pid, tier, seed):
     cmd = [binp, "--prop", job.get("prop", pid), "--tier", tier, "--seed", str(seed), "--plan"] + job_args(job, tier)
     out = subprocess.run(cmd, stdout=subprocess.PIPE, stderr=subprocess.PIPE, text=True, timeout=120)
     if out.returncode != 0:
-        raise RuntimeError("plan failed: %s\n%s" % (" ".join(cmd), out.stderr[-2000:]))
+        # the engine died while sizing the job (it runs the unperturbed scenarios to count event boundaries):
+        # that is a crash of the library on an ordinary workload, not a harness failure
+        raise PlanCrash(out.stderr, out.returncode)
     return json.loads(out.stdout.strip().splitlines()[-1])
+
+
+class PlanCrash(Exception):
+    def __init__(self, err, rc):
+        Exception.__init__(self, "engine died in --plan (rc=%s)" % rc)
+        self.err, self.rc = err, rc
 
 
 def job_args(job, tier):
@@ -403,7 +411,7 @@ def build_shim():
 def c01_program(args):
     """runs one generated program in every environment and compares trace + pcap digests"""
     (c, seed, tier, plain, asan, shim, workdir, with_memcheck) = args
-    base = ["--prop", "C01", "--tier", tier, "--seed", str(seed), "--mode", "one", "--first", str(c), "--count", "1"]
+    base = ["--prop", "C01", "--tier", tier, "--seed", str(seed), "--mode", "one", "--n", "1000000000", "--first", str(c), "--count", "1"]
     penv = dict(os.environ)
     penv["VERIF_TMP"] = workdir
     aenv = dict(penv)
@@ -531,7 +539,19 @@ def cmd_run(pid, tier, seed):
                     pyresults += list(ex.map(c01_program, [(c, seed, tier, plain, asan, shim, workdir, c < nmem) for c in range(n)]))
         tasks = []
         for ji, (job, binp) in enumerate(zip(jobs, bins)):
-            plan = engine_plan(binp, job, pid, tier, seed)
+            try:
+                plan = engine_plan(binp, job, pid, tier, seed)
+            except PlanCrash as e:
+                env = dict(os.environ); env.update(RUN_ENV)
+                # re-run with the sanitizer options of a normal run to get a classifiable report
+                rr = subprocess.run([binp, "--prop", job.get("prop", pid), "--tier", tier, "--seed", str(seed), "--plan"] + job_args(job, tier),
+                                    stdout=subprocess.PIPE, stderr=subprocess.PIPE, text=True, env=env, timeout=300)
+                err = rr.stderr if rr.returncode != 0 else e.err
+                all_viols.append({"t": "viol", "prop": job.get("crash_prop", pid), "key": "crash:" + classify_crash(err, rr.returncode if rr.returncode != 0 else e.rc) + "|unperturbed-scenario",
+                                  "case": 0, "detail": err[-3000:], "desc": "the engine died while running its base scenarios without any intervention (job %s)" % job.get("name", job["engine"]),
+                                  "engine": job["engine"], "variant": job.get("variant", "asan"), "job": job.get("name", job["engine"]), "crash": True})
+                evaluations += 1
+                continue
             n = plan["cases"]
             exhaustive_all = exhaustive_all and plan.get("exhaustive", False)
             per_job.append({"job": job.get("name", job["engine"]), "engine": job["engine"], "variant": job.get("variant", "asan"),
